@@ -4,7 +4,7 @@
    and the token alphabets.  Generated once; "U" = mu, "O" = Omega, "Q" = theta. *)
 EXTENDS UnitMachine, SITables
 MCNumbersQuick == {<<>>, <<"2">>, <<"2", ".", "5">>, <<"-", "3">>, <<".", "5">>}
-MCNumbersThorough == MCNumbersQuick \cup {<<"1", "0">>, <<"+", "0", ".", "2", "5">>, <<"1", ".", "5", ".", "2">>, <<"-">>, <<"1", "2", "0", "0">>, <<"0", ".", "0", "4">>}
+MCNumbersThorough == MCNumbersQuick \cup {<<"+", "0", ".", "2", "5">>, <<"1", ".", "5", ".", "2">>, <<"1", "2", "0", "0">>}
 MCWords1 == {<<"m">>, <<"k", "m">>, <<"m", "m">>, <<"c", "m">>, <<"U", "m">>, <<"h", "m">>, <<"d", "m">>, <<"M", "m">>, <<"s">>, <<"m", "s">>, <<"m", "i", "n">>, <<"h">>, <<"d", "a", "y">>, <<"g">>, <<"k", "g">>, <<"m", "g">>, <<"N">>, <<"k", "N">>, <<"P", "a">>, <<"h", "P", "a">>, <<"M", "P", "a">>, <<"L">>, <<"m", "L">>, <<"H", "z">>, <<"k", "H", "z">>, <<"K">>, <<"m", "K">>, <<"i", "n">>, <<"O">>, <<"k", "O">>, <<"W">>, <<"h", "a">>, <<"t">>, <<"J">>, <<"e", "V">>, <<"a", "u">>, <<"D", "a">>, <<"m", "o", "l">>, <<"c", "d">>, <<"T">>, <<"m", "T">>, <<"G", "y">>, <<"f", "t">>, <<"d", "a", "u">>, <<"P", "H", "z">>, <<"k", "i", "n">>, <<"x", "x">>, <<"m", "m", "m">>, <<"M">>, <<"k">>, <<"d", "a">>, <<"u">>}
 MCBadWords == {<<"k", "i", "n">>, <<"x", "x">>, <<"m", "m", "m">>, <<"M">>, <<"k">>, <<"d", "a">>, <<"u">>}
 MCWords2 == {<<"m">>, <<"s">>, <<"k", "g">>, <<"c", "m">>, <<"h">>, <<"N">>, <<"i", "n">>, <<"U", "s">>, <<"x", "x">>}
@@ -13,6 +13,8 @@ MCWords2Quick == {<<"m">>, <<"s">>, <<"k", "g">>, <<"h">>, <<"i", "n">>}
 MCPowers1Quick == {One, RInt(2), Half, Rat(3, 2)}
 MCPowers2Quick == {One, RInt(2)}
 MCNumbersQ == {<<>>, <<"2", ".", "5">>, <<"-", "3">>}
+MCWords3 == {<<"m">>, <<"s">>, <<"k", "g">>, <<"h">>, <<"i", "n">>, <<"c", "m">>}
+MCPowers3 == {One, RInt(2), Half}
 MCPowers1 == {One, RInt(2), RInt(3), Half, Rat(3, 2), RInt(0), Rat(2, 3)}
 MCPowers2 == {One, RInt(2), Half}
 MCPrecs == {-1, 0, 1, 3}
